@@ -20,16 +20,20 @@ def gen_extension(r, name=None, small=False):
     e = {"name": name, "version": r.choice(VERSIONS), "reqs": sorted(r.sample(REQS, r.randint(0, 3))),
          "types": [], "ops": [], "values": []}
     g = Gen(r, allow_vars=False, allow_ext=False)
+    # a quarter of the extensions use ONE pool of names for their types, operations and values: the three
+    # tables are separate namespaces, so a type and an operation may carry the same name
+    shared = r.random() < 0.25
+    e["shared_names"] = shared
     for i in range(r.randint(0, 2 if small else 4)):
         g2 = Gen(r, allow_vars=False)
         df = dict(g2.typedef())
-        df["name"] = f"T{i}"
+        df["name"] = f"n{i}" if shared else f"T{i}"
         df["ext"] = name
         df["description"] = r.choice(["", "a type", "ünï ✓"])
         e["types"].append(df)
     for i in range(r.randint(0, 2 if small else 4)):
         k = r.choice(["mono", "poly", "binary", "own-type"])
-        op = {"name": f"op{i}" if r.random() < 0.8 else f"Op.{i}", "description": r.choice(["", "does things", "λ"]),
+        op = {"name": f"n{i}" if shared else f"op{i}" if r.random() < 0.8 else f"Op.{i}", "description": r.choice(["", "does things", "λ"]),
               "misc": {}, "params": [], "body": None, "binary": False}
         if r.random() < 0.4:
             op["misc"] = {"k": r.choice([1, "v", [1, {"a": None}], 2.5, True])}
@@ -53,7 +57,7 @@ def gen_extension(r, name=None, small=False):
     for i in range(r.randint(0, 1 if small else 3)):
         t = vg.const_type(2, allow_func=False)
         if constable(t):
-            e["values"].append({"name": f"v{i}", "ty": t, "val": vg.value(t, 3)})
+            e["values"].append({"name": f"n{i}" if shared else f"v{i}", "ty": t, "val": vg.value(t, 3)})
     return e
 
 
